@@ -26,6 +26,12 @@ func (s *ByteBlockSource) Size() uint64 {
 	return uint64(len(s.Source))
 }
 func (s *ByteBlockSource) ReadBlock(off uint64, sz int) ([]byte, error) {
+	if off >= uint64(len(s.Source)) {
+		return nil, io.EOF
+	}
+	if uint64(sz) > uint64(len(s.Source))-off {
+		sz = int(uint64(len(s.Source)) - off)
+	}
 	return s.Source[off : off+uint64(sz)], nil
 }
 
@@ -116,6 +122,9 @@ func NewReader(src BlockSource, name string) (*Reader, error) {
 	if err != nil {
 		return nil, err
 	}
+	if len(headBlock) < headerSize(1)+1 {
+		return nil, fmt.Errorf("reftable: file too small")
+	}
 	if bytes.Compare(headBlock[:4], magic[:]) != 0 {
 		return nil, fmt.Errorf("reftable: got magic %q, want %q", headBlock[:4], magic)
 	}
@@ -123,6 +132,10 @@ func NewReader(src BlockSource, name string) (*Reader, error) {
 	version := int(headBlock[4])
 	if version != 1 && version != 2 {
 		return nil, fmt.Errorf("reftable: unsupported version %d", version)
+	}
+
+	if len(headBlock) < headerSize(version)+1 || src.Size() < uint64(headerSize(version)+footerSize(version)) {
+		return nil, fmt.Errorf("reftable: file too small")
 	}
 
 	r := &Reader{
@@ -135,6 +148,9 @@ func NewReader(src BlockSource, name string) (*Reader, error) {
 	footBlock, err := src.ReadBlock(r.size, footerSize(version))
 	if err != nil {
 		return nil, err
+	}
+	if len(footBlock) != footerSize(version) {
+		return nil, fmt.Errorf("reftable: short read of footer")
 	}
 
 	if 0 != bytes.Compare(headBlock[:headerSize(version)], footBlock[:headerSize(version)]) {
